@@ -31,7 +31,7 @@ func main() {
 	}
 
 	mu := matchUniverse()
-	trees2 := mu.allDepth2(pick(2, 3))
+	trees2 := mu.allDepth2(3)
 	nA := (len(trees2) + treesPerCase - 1) / treesPerCase
 	nB := pick(30, 600)
 	nC := pick(20000, 300000)
